@@ -252,6 +252,16 @@ func runC06(c *fw.Ctx) {
 		}
 	}
 
+	// ---- Concat of many operands (5..65) along every dimension, also with leading dimensions smaller than the operand count ----
+	for _, nops := range []int{5, 7, 8, 9, 10, 12, 16, 17, 31, 33, 40, 65} {
+		for _, base := range [][]int{{1}, {2, 1}, {1, 2}, {2, 3}, {3, 1, 2}, {2, 2, 1}, {1, 1, 3}, {2, 1, 1, 2}} {
+			for dim := range base {
+				base, dim, nops := base, dim, nops
+				c.Case(func(k *fw.K) { c06Concat(k, base, dim, nops) })
+			}
+		}
+	}
+
 	// ---- Reshape / Flatten / Squeeze / UnSqueeze ----
 	for _, shape := range Shapes(0, 4, 3) {
 		n := ref.Prod(shape)
@@ -622,7 +632,7 @@ func c06Concat(k *fw.K, base []int, dim, nops int) {
 	sizes := k.Rng.Perm(4)
 	for i := range xs {
 		s := ref.CopyInts(base)
-		s[dim] = 1 + sizes[i]%3
+		s[dim] = 1 + sizes[i%4]%3
 		if i == 1 && s[dim] == xs[0].Shape[dim] { // make sure sizes differ somewhere
 			s[dim] = s[dim]%3 + 1
 		}
@@ -632,8 +642,14 @@ func c06Concat(k *fw.K, base []int, dim, nops int) {
 	in := ref.Instr{Op: "concat", Dim: dim}
 	k.Case = fcase{In: in, Ops: xs}
 	key := fmt.Sprintf("concat/%d/", dim)
-	for _, x := range xs {
-		key += shapeKey(x.Shape)
+	for i, x := range xs {
+		if i < 6 {
+			key += shapeKey(x.Shape)
+		}
+	}
+	if nops > 6 {
+		key += fmt.Sprintf("...(%d operands)", nops)
+		k.Count("concat_cases_with_more_than_6_operands", 1)
 	}
 	k.Key("%s", key)
 	k.Count("concat_cases", 1)
